@@ -61,6 +61,24 @@ def edge_level_scenario(rng):
             "start": "fresh", "trig": [t], "steps": steps, "data": [xs], "oneblock": False}
 
 
+def long_auto_scenario(rng):
+    """Auto trigger with a delay of many records at a sample rate whose period is not a whole number of nanoseconds
+    (the sources round the period; the delay in samples is delay x rate, not delay / rounded period)."""
+    nsamp = rng.choice([8, 10, 12])
+    npre = rng.randint(2, nsamp // 2)
+    rate = rng.choice([3e8, 3e8, 7e8, 1.5e8, 3e7])
+    delay = rng.choice([12, 15, 20]) * nsamp
+    total = 4 * delay + 6 * nsamp
+    xs = [1000 + (i % 7) for i in range(total)]
+    t = streamgen.trig_off()
+    t.update({"auto": True, "autodelay": delay, "autoveto": 0})
+    steps = [{"k": "trig", "chans": [0], "t": t}]
+    for b in streamgen.block_sizes(rng, total, nsamp) if rng.random() < 0.5 else [total // 3, total - total // 3]:
+        steps.append({"k": "block", "n": b})
+    return {"origin": "long-auto-delay", "nchan": 1, "npre": npre, "nsamp": nsamp, "signed": False, "period": int(round(1e9 / rate)), "ratehz": rate,
+            "frame0": 0, "start": rng.choice(["fresh", "restored"]), "trig": [t], "steps": steps, "data": [xs], "oneblock": False}
+
+
 def run(ctx):
     q = ctx.quick()
     scens, _ = sc.stream_mc(ctx, q)
@@ -72,6 +90,9 @@ def run(ctx):
     ne = 120 if q else 2500
     scens += [edge_level_scenario(rng) for _ in range(ne)]
     ctx.notes["scenarios_edge_plus_level"] = ne
+    na = 30 if q else 400
+    scens += [long_auto_scenario(rng) for _ in range(na)]
+    ctx.notes["scenarios_long_auto_delay"] = na
     sc.validate(ctx, scens, PREFIXES)
     return vlib.finish(ctx, LEVEL, RULE,
                        ["completeness is judged only for samples at least one record after an epoch boundary and decided 2 records before the end of the stream",
